@@ -354,7 +354,7 @@ def shard_compose(spec, rec):
                 break
         else:
             continue
-        case = {"kind": "compose", "program": prog, "split_seed": prng.random(), "unique_blocks": prng.random() < 0.5, "dynamic": prng.random() < 0.3, "seed": [spec["seed"], spec["idx"], i]}
+        case = {"kind": "compose", "program": prog, "split_seed": prng.random(), "unique_blocks": prng.random() < 0.65, "dynamic": prng.random() < 0.3, "seed": [spec["seed"], spec["idx"], i]}
         nt = run_compose_case(env, rec, case)
         rec.case(prog, nontrivial=bool(nt))
 
